@@ -65,6 +65,147 @@ def ownerOf (v : View) (ds : List ShardD) (slot : Int) : Option (Bytes × List B
       | some a => some (a, (d.nodes.filter (! ·.master)).filterMap (usable v))
 
 
+/-! ## Part 2: what an observed run must look like
+
+A run is judged from what the nodes saw: the calls each node received (in arrival order, commands
+identified by their position in the caller's batch, `A` = ASKING, `O:…` = wrapper commands of the
+cache path) and the replies the nodes handed out, in global order. -/
+namespace Trace
+
+structure TCmd where
+  id : Nat
+  slot : Nat
+  isMulti : Bool
+  isExec : Bool
+  deriving Repr
+
+structure TCall where
+  addr : Bytes
+  kind : String
+  items : List String
+  deriving Repr
+
+structure TEv where
+  id : Nat
+  addr : Bytes
+  reply : String
+  deriving Repr
+
+def lastEv (evs : List TEv) (i : Nat) : Option TEv := (evs.filter (·.id = i)).getLast?
+
+/-- results are positional: slot `i` holds the last reply a node produced for command `i`; a command that
+    never reached a node carries an error made by the client (`x:…`) -/
+def positional (n : Nat) (results : List String) (evs : List TEv) : Bool :=
+  results.length == n && (List.range n).all fun i =>
+    match lastEv evs i, results[i]? with
+    | some e, some r => r == e.reply
+    | none, some r => r.startsWith "x:"
+    | _, none => false
+
+def idOf (item : String) : Option Nat := item.toNat?
+
+/-- MULTI…EXEC blocks of the batch: `(mi, ei)` with MULTI at `mi`, EXEC at `ei`, no marker in between -/
+def blocks (cmds : List TCmd) : List (Nat × Nat) :=
+  let rec go (cs : List TCmd) (openAt : Option Nat) (acc : List (Nat × Nat)) : List (Nat × Nat) :=
+    match cs with
+    | [] => acc.reverse
+    | c :: rest =>
+      if c.isMulti then go rest (some c.id) acc
+      else if c.isExec then
+        match openAt with
+        | some m => go rest none ((m, c.id) :: acc)
+        | none => go rest none acc
+      else go rest openAt acc
+  go cmds none []
+
+def okReply : String := "s:4f4b"
+
+/-- the ids of a call, wrappers and ASKING dropped -/
+def callIds (c : TCall) : List Nat := c.items.filterMap idOf
+
+def isInfix (xs ys : List Nat) : Bool :=
+  (List.range (ys.length + 1)).any fun k => (ys.drop k).take xs.length == xs
+
+/-- a block whose MULTI was accepted travels whole: a call holding any of its commands holds all of them,
+    contiguous and in order -/
+def blocksWhole (cmds : List TCmd) (calls : List TCall) (evs : List TEv) : Bool :=
+  (blocks cmds).all fun (m, e) =>
+    let accepted := (evs.filter (·.id = m)).all (·.reply == okReply)
+    !accepted || calls.all fun c =>
+      let ids := callIds c
+      let blockIds := (List.range (e + 1 - m)).map (· + m)
+      !(ids.any fun i => m ≤ i && i ≤ e) || isInfix blockIds ids
+
+/-- ASKING discipline inside one call: `A` exactly once in front of every unit (a MULTI…EXEC run or a single
+    command), never inside a unit, never twice in a row. Wrapper items are transparent. -/
+def askingGrammar (cmds : List TCmd) (items : List String) : Bool :=
+  let isM (i : Nat) : Bool := (cmds.find? (·.id = i)).any (·.isMulti)
+  let isE (i : Nat) : Bool := (cmds.find? (·.id = i)).any (·.isExec)
+  -- state: 0 = expecting A, 1 = A seen (expecting the unit's first command), 2 = inside a transaction
+  let rec go (xs : List String) (st : Nat) : Bool :=
+    match xs with
+    | [] => st != 1
+    | x :: rest =>
+      if x.startsWith "O:" then go rest st
+      else if x == "A" then (st == 0) && go rest 1
+      else match idOf x with
+        | none => false
+        | some i =>
+          if st == 0 then false
+          else if st == 1 then go rest (if isM i then 2 else 0)
+          else go rest (if isE i then 0 else 2)
+  go items 0
+
+def askingOk (cmds : List TCmd) (calls : List TCall) : Bool :=
+  calls.all fun c => !(c.items.contains "A") || askingGrammar cmds c.items
+
+def hexOfText (s : String) : String := Rv.Hex.encode s.toUTF8.toList
+
+/-- redirect target named by a reply text `e:<hex of "MOVED 1 addr">` / `ASK` -/
+def redirectOf (kind : String) (reply : String) : Option String :=
+  let pre := "e:" ++ hexOfText (kind ++ " 1 ")
+  if reply.startsWith pre then some (reply.drop pre.length).toString else none
+
+def inBlock (cmds : List TCmd) (i : Nat) : Bool := (blocks cmds).any fun (m, e) => m ≤ i && i ≤ e
+
+/-- consecutive events of one command -/
+def evPairs (evs : List TEv) (i : Nat) : List (TEv × TEv) :=
+  let es := evs.filter (·.id = i)
+  es.zip (es.drop 1)
+
+/-- a followed MOVED/ASK leads to the named node; after ASK the command arrives there behind an `A` -/
+def redirectsFollowed (cmds : List TCmd) (calls : List TCall) (evs : List TEv) : Bool :=
+  cmds.all fun c =>
+    inBlock cmds c.id ||
+    (evPairs evs c.id).all fun (e, e') =>
+      (match redirectOf "MOVED" e.reply with
+       | some t => Rv.Hex.encode e'.addr == t
+       | none => true) &&
+      (match redirectOf "ASK" e.reply with
+       | some t => Rv.Hex.encode e'.addr == t &&
+           calls.any fun cl => Rv.Hex.encode cl.addr == t &&
+             (let noWrap := cl.items.filter (fun x => !x.startsWith "O:")
+              (noWrap.zip (noWrap.drop 1)).any fun (a, x) => a == "A" && x == toString c.id)
+       | none => true)
+
+def isRedirectReply (r : String) : Bool := (redirectOf "MOVED" r).isSome || (redirectOf "ASK" r).isSome
+
+/-- single command, `MaxMovedRedirections = k > 0`: at most `k` redirects are followed -/
+def boundOk (k : Nat) (cmds : List TCmd) (evs : List TEv) : Bool :=
+  k == 0 || cmds.length != 1 ||
+    ((evPairs evs 0).filter fun (e, _) => isRedirectReply e.reply).length ≤ k
+
+/-- verdict on one observed run -/
+def judge (k : Nat) (cmds : List TCmd) (results : List String) (calls : List TCall) (evs : List TEv) : String :=
+  if !positional cmds.length results evs then "bad:positional"
+  else if !blocksWhole cmds calls evs then "bad:block-split"
+  else if !askingOk cmds calls then "bad:asking"
+  else if !redirectsFollowed cmds calls evs then "bad:redirect-not-followed"
+  else if !boundOk k cmds evs then "bad:redirect-bound"
+  else "ok"
+
+end Trace
+
 /-! line-protocol helpers (description tokens written by harness/cluster `descTokens`) -/
 namespace Wire
 
@@ -111,6 +252,67 @@ def parseDesc : List String → Option (List ShardD × List String)
     | some k => takeShards k ws
     | none => none
   | [] => none
+
+
+open Trace in
+def parseTCmd (w : String) : Option TCmd :=
+  match w.splitOn "/" with
+  | [i, s, f] =>
+    match i.toNat?, s.toNat? with
+    | some i, some s => some { id := i, slot := s, isMulti := f.contains 'M', isExec := f.contains 'E' }
+    | _, _ => none
+  | _ => none
+
+open Trace in
+/-- `addrhex=kind:a,b;kind:c` -/
+def parseNodeLog (w : String) : Option (List TCall) :=
+  match w.splitOn "=" with
+  | [a, calls] =>
+    match Rv.Hex.decode a with
+    | none => none
+    | some a =>
+      (calls.splitOn ";").mapM fun c =>
+        match c.splitOn ":" with
+        | k :: rest => some { addr := a, kind := k, items := (":".intercalate rest).splitOn "," }
+        | _ => none
+  | _ => none
+
+open Trace in
+/-- `id@addrhex=reply` -/
+def parseEv (w : String) : Option TEv :=
+  match w.splitOn "@" with
+  | [i, rest] =>
+    match rest.splitOn "=" with
+    | [a, r] =>
+      match i.toNat?, Rv.Hex.decode a with
+      | some i, some a => some { id := i, addr := a, reply := r }
+      | _, _ => none
+    | _ => none
+  | _ => none
+
+def splitOnSemi (ws : List String) : List (List String) :=
+  let rec go (ws : List String) (cur : List String) (acc : List (List String)) : List (List String) :=
+    match ws with
+    | [] => (cur.reverse :: acc).reverse
+    | w :: rest => if w == ";" then go rest [] (cur.reverse :: acc) else go rest (w :: cur) acc
+  go ws [] []
+
+/-- `!trace maxredir=K <cmd>… ; <result>… ; <node logs> ; <events>` -/
+def judgeLine (ws : List String) : String :=
+  match splitOnSemi ws with
+  | [hd, results, logs, evs] =>
+    match hd with
+    | k :: cmds =>
+      let kk := ((k.splitOn "=").getLast?.bind String.toNat?).getD 0
+      let logs := logs.filter (· ≠ "-")
+      let evs := evs.filter (· ≠ "-")
+      match cmds.mapM parseTCmd, logs.mapM parseNodeLog, evs.mapM parseEv with
+      | some cmds, some calls, some evs =>
+        let results := if results == ["none"] then [] else results
+        Trace.judge kk cmds results calls.flatten evs
+      | _, _, _ => "bad-op"
+    | [] => "bad-op"
+  | _ => "bad-op"
 
 end Wire
 end Rv.Spec.Cluster
